@@ -31,6 +31,7 @@ def run_property(pid, tier, root, seed, selftest=True, out_dir=None, evidence_di
             mod.run(chk)
             from .props import common as _common
             _common.rule_no_memo(chk)
+            _common.rule_stateless(chk)
         except AnalysisError as e:
             # a positively identified violation stands even if a later rule lost its anchor
             if not any(o.status == "VIOLATED" for o in chk.obs):
